@@ -278,6 +278,20 @@ def run_case(case, workdir):
             f"kernel {e['i']}: the log-density function aspire handed to the kernel overwrote the kernel's own position array in "
             f"place ({len(mut)} of {len(r.seam.evals)} evaluations): after the call the kernel holds x-space coordinates, so the value "
             f"returned no longer belongs to the point the kernel keeps", where, n_mutated=len(mut)))
+    # which temperature must each kernel have been given?  kernel i (1-based) belongs to iteration i and must use the
+    # recorded beta_i; a kernel after the last iteration is the final enlargement, whose particles were resampled to 1.0
+    if is_smc and r.history is not None and hasattr(r.history, "beta"):
+        hb = [float(to_np(b)) for b in r.history.beta]
+        for st_ in r.seam.starts:
+            i = st_["i"]
+            want_b = hb[i - 1] if i <= len(hb) else 1.0
+            if st_["beta"] is None or float(st_["beta"]) != want_b:
+                V.append(O.violation(
+                    "c05.kernel_temperature",
+                    f"kernel {i} was handed the target at beta={st_['beta']!r}, but "
+                    + (f"iteration {i} moved the population to beta={want_b!r}" if i <= len(hb) else "it mutates the final population, which was resampled to beta=1.0"),
+                    {**where, "stage": "iteration" if i <= len(hb) else "final_enlargement"}))
+                break
     for ki, evs in sorted(by_kernel.items()):
         if mut:
             break
